@@ -465,7 +465,7 @@ type planted struct {
 }
 
 var defectKinds = []string{"unknown_msgtype", "required_missing", "not_defined_for_type", "not_in_dictionary", "empty_value",
-	"bad_enum", "bad_format", "group_count", "member_order", "section_order", "duplicate_tag"}
+	"bad_enum", "bad_format", "group_count", "member_order", "section_order", "duplicate_tag", "duplicate_tolerated"}
 
 type fpos struct {
 	sec  int // 0 hdr 1 body 2 trl
@@ -673,6 +673,23 @@ func (g *instGen) mutate(in *instance, kind string, app, tr *datadictionary.Data
 		j := 1 + r.intn(len(in.body))
 		in.body = append(in.body[:j:j], append([]unit{u}, in.body[j:]...)...)
 		return planted{kind, u.fields[0].tag, "-"}, true
+	case "duplicate_tolerated":
+		// a tag the settings tolerate (unknown to the dictionary, or user-defined) appearing twice: still a duplicate
+		tag := []int{4990, 4995, 9001, 20000}[r.intn(4)]
+		for {
+			_, a := bodyDD.FieldTypeByTag[tag]
+			_, b := hdrDD.FieldTypeByTag[tag]
+			if !a && !b {
+				break
+			}
+			tag++
+		}
+		for k := 0; k < 2; k++ {
+			nu := unit{sec: 'b', fields: []wfield{{tag: tag, val: g.str(1, 4), role: 'p'}}}
+			i := r.intn(len(in.body) + 1)
+			in.body = append(in.body[:i:i], append([]unit{nu}, in.body[i:]...)...)
+		}
+		return planted{"duplicate_tag", tag, "tolerated"}, true
 	case "duplicate_tag":
 		var cs []fpos
 		for si, sp := range in.sections()[:2] {
@@ -765,6 +782,20 @@ func genValid(r *rng, tier string, idx int, o *out, do func(string) string) stri
 		for len(bitsList) < 3 {
 			b := fmt.Sprintf("%05b", r.intn(32))
 			bitsList = append(bitsList, b)
+		}
+		if pl.aux == "tolerated" {
+			// only settings under which one copy of the tag is conforming: the duplicate is then the single defect
+			bitsList = bitsList[:0]
+			for len(bitsList) < 3 {
+				b := []byte(fmt.Sprintf("%05b", r.intn(32)))
+				b[1] = '1'
+				if pl.tag < 5000 {
+					b[2] = '1'
+				} else {
+					b[3] = '0'
+				}
+				bitsList = append(bitsList, string(b))
+			}
 		}
 		for _, bits := range bitsList {
 			res := do(fmt.Sprintf("v %s %s %s %s %s %s", bits, pl.kind, tagS, pl.aux, hx(raw), sect))
